@@ -21,6 +21,6 @@ out += ["", f"{caught} of {n} seeded changes are reported (exit 1 with a replay 
 for l in open("/verif/mutants/RESULTS.tsv"):
     a = l.rstrip("\n").split("\t")
     out.append(f"| {a[0]} | {a[1]} | {a[2]} | {a[3]} | {a[4]} |")
-out += ["", "`baseline suite = FAIL` marks mutants that the repository's own tests already catch (kept for completeness). The three REFACTOR patches preserve behaviour (always reloading every index level stays within C16's bound of 2(levels+2); one write call per block; dropping a filter that can never reject) and every one of the 17 checks exits 0 on them."]
+out += ["", "`baseline suite = FAIL` marks mutants that the repository's own tests already catch (kept for completeness). `refactors/*.patch` are substantial behaviour-preserving refactors written by further sub-agents (one per source area, each with its own equivalence notes in `refactors/*.notes.txt`); every one of the 17 checks exits 0 on each of them. The three REFACTOR patches preserve behaviour (always reloading every index level stays within C16's bound of 2(levels+2); one write call per block; dropping a filter that can never reject) and every one of the 17 checks exits 0 on them."]
 open("/verif/SENSITIVITY.md", "w").write("\n".join(out) + "\n")
 print(caught, n)
